@@ -218,8 +218,9 @@ func Check01Hist(c CaseHist, r *core.Rec) {
 	for i, op := range c.Ops {
 		switch op.Kind {
 		case "set":
-			Model.Set(mu, op.Setter, string(op.Value))
-			ApplySetter(iu, op.Setter, string(op.Value))
+			val := valueFor(iu, op)
+			Model.Set(mu, op.Setter, val)
+			ApplySetter(iu, op.Setter, val)
 			if ObsOf(iu) != mu.Obs() {
 				r.Vacuous()
 				return
